@@ -27,6 +27,9 @@ pub fn invalid_sources() -> Vec<(&'static str, String, Option<&'static str>)> {
     v.push(("undefined-imported-proc", "use.std::math::u64\nbegin call.u64::no_such_proc end".into(), None));
     v.push(("undefined-imported-proc", "use.std::math::u64\nbegin procref.u64::no_such_proc end".into(), None));
     v.push(("undefined-module", "begin exec.nomod::foo end".into(), None));
+    // an import whose path has a single component (no `::`)
+    v.push(("undefined-module", "use.nomod\nbegin exec.nomod::foo end".into(), None));
+    v.push(("undefined-module", "use.nomod->m\nbegin call.m::foo end".into(), None));
     v.push(("undefined-module", "use.std::no::such::module\nbegin exec.module::foo end".into(), None));
     v.push(("undefined-syscall", p("syscall.foo"), None));
     v.push(("undefined-syscall", p("syscall.nokernelproc"), Some("export.k0 push.1 drop end")));
